@@ -213,6 +213,9 @@ def slot_access_rule(facts, rep, R1, wr, ww):
 def run(facts, rep, ctx):
     R1 = rep.rule("R17.1", "dual structure: label constant, loop bounds, bit test/set, slot index map, one slot per bit, group/main-bit coupling, string/bit coupling", floor=11)
     R2 = rep.rule("R17.2", "space accounting: 4 bytes per emitted word per set; 12-byte header; 4 bytes per clip-table entry", floor=3)
+    R3 = rep.rule("R17.3", "archive adders under the set writer (write_label for set names, write_string for slots): payload stored on every non-error path, no payload-dependent refusal, no removal keyed on the label being added (two sets may carry the same label text)", floor=2)
+    import annot
+    annot.contract(facts, rep, R3, ("write_label", "write_string"))
     rd = facts.body(RD)
     wr = facts.body(WR)
     if rd is None or wr is None or not rd.pub or not wr.pub:
@@ -354,7 +357,10 @@ def run(facts, rep, ctx):
             for e in p.events:
                 if e["k"] == "call" and e["callee"] and e["bb"] in later and e["callee"].rsplit("::", 1)[-1] in ("push", "extend", "insert", "push_back") and e["args"]:
                     a0 = e["args"][0]
-                    if any(x[0] == "field" and x[2] == "sets" for x in walk(a0)) or any(
+                    raw0 = rd.blocks[e["bb"]]["term"]["args"][0] if rd.blocks[e["bb"]]["term"]["k"] == "call" and rd.blocks[e["bb"]]["term"]["args"] else {}
+                    rawp = raw0.get("m") or raw0.get("c")
+                    raw_ty = (rd.local_ty(rawp["l"]) or "") if rawp and not rawp["p"] else ""
+                    if any(x[0] == "field" and x[2] == "sets" for x in walk(a0)) or "std::vec::Vec<std::vec::Vec<" in raw_ty or any(
                             x[0] in ("var", "local") and (rd.local_ty(x[1]) or "").startswith("std::vec::Vec<std::vec::Vec<") for x in walk(a0)):
                         stored = True
             if not stored:
